@@ -663,7 +663,7 @@ def write_mei(asc, opt, rng):
     w('<staffGrp xml:id="%s" symbol="bracket">' % ids("grp"))
     if opt.get("nested_grp"):
         w('<staffGrp xml:id="%s"><grpSym xml:id="%s" symbol="brace"/>' % (ids("grp"), ids("gs")))
-    ppq = opt.get("ppq")
+    ppq = opt.get("ppq") if opt.get("declare", "ppq") in ("ppq", "both") else None
     for si, st in enumerate(asc["staves"]):
         a = ' xml:id="P%d" n="%d" lines="5"' % (si + 1, si + 1)
         ch = '<label xml:id="%s">Staff %d</label>' % (ids("lab"), si + 1) if opt.get("labels") else ""
@@ -779,7 +779,7 @@ def silent_mode(opt, vi, full):
 
 def mei_event(e, si, vi, ids, opt, rng, pending, ties):
     durattrs = ' dur="%s"' % mei_dur(e["v"]) + (' dots="%d"' % e["d"] if e.get("d") else "")
-    if opt.get("ppq") and opt.get("durppq") and e["t"] != "g":
+    if opt.get("ppq") and opt.get("declare", "ppq" if not opt.get("durppq") else "both") in ("durppq", "both") and e["t"] != "g":
         durattrs += ' dur.ppq="%d"' % int(ev_value(e) * opt["ppq"])
     if e["t"] == "s":
         return '<space xml:id="%s"%s/>' % (ids("sp"), durattrs)
@@ -946,10 +946,10 @@ def rand_mei_opt(rng, asc):
                     need = need * ev_value(e).denominator // __import__("math").gcd(need, ev_value(e).denominator)
     for ln in measure_lengths(asc):
         need = need * ln.denominator // __import__("math").gcd(need, ln.denominator)
-    declared = rng.random() < 0.4
+    declared = rng.random() < 0.5
     return {"sig_loc": rng.choice(["staffdef_attr", "staffdef_child", "scoredef_attr", "scoredef_child"]),
             "clef_loc": rng.choice(["attr", "child"]), "ppq": need * rng.choice([1, 1, 2, 3]) if declared else None,
-            "durppq": rng.random() < 0.5, "nested_grp": rng.random() < 0.3, "beams": rng.random() < 0.6,
+            "declare": rng.choice(["ppq", "both", "durppq"]), "nested_grp": rng.random() < 0.3, "beams": rng.random() < 0.6,
             "beam_outside": rng.random() < 0.6, "chord_note_dur": rng.random() < 0.4,
             "accid_mode": rng.choice(["attr", "ges", "child", "mixed"]), "layer_n": rng.random() < 0.8,
             "silent": rng.choice(["mrest", "space", "omit"]), "space": rng.random() < 0.3,
@@ -1126,6 +1126,171 @@ def oracle_compare(exp_parts, infos, fails, check_sigs=True, mname=None):
                 fails.append("clef: %sloaded %s, declared %s" % (tag, [tuple(map(str, c[:4])) for c in inf["clefs"]], [tuple(map(str, c)) for c in ex["clefs"]]))
 
 
+
+# ============================================================================ exporter round trips
+TYPE_OF_V = {-1: "long", 0: "breve", 1: "whole", 2: "half", 4: "quarter", 8: "eighth", 16: "16th", 32: "32nd",
+             64: "64th", 128: "128th", 256: "256th"}
+
+
+def asc_divs(asc):
+    from math import gcd
+
+    need = 1
+    for st in asc["staves"]:
+        for voice in st["voices"]:
+            for mm in voice:
+                for e in (mm or []):
+                    dn = ev_value(e).denominator
+                    need = need * dn // gcd(need, dn)
+    for ln in measure_lengths(asc):
+        need = need * ln.denominator // gcd(need, ln.denominator)
+    return need
+
+
+def build_part(asc, with_tuplets=True, with_rests=True):
+    """an exportable partitura Part (public API only): every event has its symbolic duration, tuplets are
+    Tuplet objects, silent measures of a voice are filled with rests; returns (part, [note facts])"""
+    import partitura.score as S
+
+    divs = asc_divs(asc)
+    part = S.Part("P1", "generated", quarter_duration=divs)
+    lens = measure_lengths(asc)
+    nm = n_measures(asc)
+    part.add(S.TimeSignature(asc["meter"][0], asc["meter"][1]), 0)
+    part.add(S.KeySignature(asc["key"], asc.get("mode") or "major"), 0)
+    t = F(0)
+    for m in range(nm):
+        if m > 0 and str(m) in asc.get("meterchg", {}):
+            part.add(S.TimeSignature(*asc["meterchg"][str(m)]), int(t * divs))
+        part.add(S.Measure(number=m + 1), int(t * divs), int((t + lens[m]) * divs))
+        t += lens[m]
+    facts = []
+    nid = 0
+    voice_no = 0
+    for si, st in enumerate(asc["staves"]):
+        part.add(S.Clef(si + 1, st["clef"][0], st["clef"][1], 0), 0)
+        for vi, voice in enumerate(st["voices"]):
+            voice_no += 1
+            t0 = F(0)
+            prev = []      # notes waiting for their tie continuation [(pitch tuple, Note)]
+            for m, mm in enumerate(voice):
+                pos = t0
+                evs = mm
+                if evs is None:
+                    evs = [{"t": "r", "v": v, "d": d, "tup": None} for (v, d) in rest_fill(lens[m])] if (with_rests or vi == 0) else []
+                    prev = []
+                tup_open = None   # (tg, first object, last object, tup)
+                for e in evs:
+                    val = ev_value(e)
+                    sd = {"type": TYPE_OF_V[e["v"]]}
+                    if e.get("d"):
+                        sd["dots"] = e["d"]
+                    if e.get("tup"):
+                        sd["actual_notes"], sd["normal_notes"] = e["tup"][0], e["tup"][1]
+                    start, end = int(pos * divs), int((pos + val) * divs)
+                    objs = []
+                    if e["t"] in ("r", "s"):
+                        nid += 1
+                        o = S.Rest(id="r%d" % nid, voice=voice_no, staff=si + 1, symbolic_duration=sd)
+                        part.add(o, start, end)
+                        objs.append(o)
+                    else:
+                        new_prev = []
+                        for p in e["p"]:
+                            nid += 1
+                            if e["t"] == "g":
+                                o = S.GraceNote("grace", p[0], p[2], p[1] if p[1] else None, id="n%d" % nid, voice=voice_no,
+                                                staff=si + 1, symbolic_duration=sd)
+                            else:
+                                o = S.Note(p[0], p[2], p[1] if p[1] else None, id="n%d" % nid, voice=voice_no, staff=si + 1,
+                                           symbolic_duration=sd)
+                            part.add(o, start, end)
+                            objs.append(o)
+                            facts.append((pos, val, e["t"], p[0], p[1], p[2], si + 1))
+                            if e["t"] == "n":
+                                for (pp, po) in prev:
+                                    if pp == tuple(p):
+                                        po.tie_next = o
+                                        o.tie_prev = po
+                                if e.get("tie"):
+                                    new_prev.append((tuple(p), o))
+                        if e["t"] == "n":
+                            prev = new_prev
+                    if e["t"] != "g":
+                        if e.get("tup") and with_tuplets:
+                            if tup_open and tup_open[0] == e["tup"][2]:
+                                tup_open[2] = objs[0]
+                            else:
+                                if tup_open:
+                                    part.add(S.Tuplet(tup_open[1], tup_open[2], tup_open[3][0], tup_open[3][1]), tup_open[1].start.t, tup_open[2].start.t)
+                                tup_open = [e["tup"][2], objs[0], objs[0], e["tup"]]
+                        elif tup_open:
+                            part.add(S.Tuplet(tup_open[1], tup_open[2], tup_open[3][0], tup_open[3][1]), tup_open[1].start.t, tup_open[2].start.t)
+                            tup_open = None
+                    pos += val
+                if tup_open:
+                    part.add(S.Tuplet(tup_open[1], tup_open[2], tup_open[3][0], tup_open[3][1]), tup_open[1].start.t, tup_open[2].start.t)
+                t0 += lens[m]
+    return part, facts
+
+
+def loaded_note_facts(score):
+    import partitura.score as S
+
+    res = []
+    for p in score.parts:
+        divs = _fr(p._quarter_durations[0])
+        for n in p.iter_all(S.Note, include_subclasses=True):
+            res.append((_fr(n.start.t) / divs, (_fr(n.end.t) - _fr(n.start.t)) / divs,
+                        "g" if isinstance(n, S.GraceNote) else "n", n.step.upper(), n.alter or 0, n.octave, n.staff))
+    return res
+
+
+def eval_export(d):
+    import partitura
+
+    asc = d["asc"]
+    fmt = d["k"][1:]
+    ev = Eval()
+    part, facts = build_part(asc, with_rests=d.get("rests", True))
+    tmp = tempfile.mkdtemp(prefix="c19x-")
+    path = os.path.join(tmp, "out." + ("krn" if fmt == "kern" else "mei"))
+    try:
+        try:
+            if fmt == "kern":
+                from partitura.io.exportkern import save_kern
+                save_kern(part, path)
+            else:
+                from partitura.io.exportmei import save_mei
+                save_mei(part, path)
+        except Exception as e:
+            ev.oracle.append("export: save_%s raised %s: %s" % (fmt, type(e).__name__, str(e)[:200]))
+            return ev
+        ev.info["text"] = open(path, encoding="utf-8", errors="replace").read()
+        try:
+            score = partitura.load_score(path)
+        except Exception as e:
+            ev.oracle.append("reload: load_score raised %s on the exported file: %s" % (type(e).__name__, str(e)[:200]))
+            return ev
+        got = loaded_note_facts(score)
+        from collections import Counter
+
+        missing = list((Counter(facts) - Counter(got)).elements())
+        if missing:
+            extra = list((Counter(got) - Counter(facts)).elements())
+            ev.oracle.append("roundtrip: %d of %d notes not found again (onset,dur,kind,step,alter,oct,staff), e.g. %s; instead %s" % (
+                len(missing), len(facts), [tuple(map(str, m)) for m in sorted(missing)[:3]], [tuple(map(str, m)) for m in sorted(extra)[:3]]))
+        ev.key = "x%s:%s" % (fmt, ev.info["text"]) if facts else None
+    finally:
+        try:
+            if os.path.exists(path):
+                os.remove(path)
+            os.rmdir(tmp)
+        except OSError:
+            pass
+    return ev
+
+
 # ============================================================================ cases
 def rand_layout(rng):
     return {"same_part": rng.random() < 0.5, "split": rng.random() < 0.5, "bar0": rng.random() < 0.85,
@@ -1144,14 +1309,23 @@ def cases(rng, tier):
         seed = rng.getrandbits(48)
         r = random.Random(seed)
         asc = gen_asc(r, exotic=r.random() < 0.2, chord_ties=chord_ties and r.random() < 0.3)
-        yield {"k": "kern", "asc": asc, "lay": rand_layout(r), "seed": seed}
+        yield {"k": "kern", "asc": asc, "lay": rand_layout(r), "seed": seed,
+               "via": r.choice(["load_kern", "load_kern", ".krn", ".kern", ".KRN"])}
         seed = rng.getrandbits(48)
         r = random.Random(seed)
         asc = gen_asc(r, exotic=r.random() < 0.2, chord_ties=True)
         opt = rand_mei_opt(r, asc)
         if opt["space"]:
             asc = spaces_for_rests(asc, r)
-        yield {"k": "mei", "asc": asc, "opt": opt, "seed": seed}
+        yield {"k": "mei", "asc": asc, "opt": opt, "seed": seed, "via": r.choice(["load_mei", "load_mei", ".mei", ".MEI"])}
+        if i % 2 == 0:
+            seed = rng.getrandbits(48)
+            r = random.Random(seed)
+            asc = gen_asc(r, exotic=False, max_measures=3, chord_ties=True)
+            kind = "xkern" if i % 4 == 0 else "xmei"
+            # exportable: a kern spine must be rhythmically complete, so every voice sounds or rests in every
+            # measure; for MEI only the first voice of each staff has to fill its measures
+            yield {"k": kind, "asc": asc, "seed": seed, "rests": True if kind == "xkern" else r.random() < 0.6}
 
 
 def evaluate(d):
@@ -1162,6 +1336,8 @@ def evaluate(d):
         return eval_kern(d)
     if k == "mei":
         return eval_mei(d)
+    if k in ("xkern", "xmei"):
+        return eval_export(d)
     raise ValueError("unknown case kind %r" % k)
 
 
@@ -1189,7 +1365,8 @@ def eval_kern(d):
     ev = Eval(info={"text": text})
     exp = kern_expect(asc, lay, mains)
     try:
-        score = load_text(text, ".krn", loader="kern")
+        via = d.get("via", "load_kern")
+        score = load_text(text, ".krn", loader="kern") if via == "load_kern" else load_text(text, via)
         infos = extract_parts(score)
         err = None
     except Exception as e:  # the document is well-formed: the loader must accept it
@@ -1214,7 +1391,8 @@ def eval_mei(d):
     ev = Eval(info={"text": text})
     exp = mei_expect(asc, opt)
     try:
-        score = load_text(text, ".mei", loader="mei")
+        via = d.get("via", "load_mei")
+        score = load_text(text, ".mei", loader="mei") if via == "load_mei" else load_text(text, via)
         infos = extract_parts(score)
         err = None
     except Exception as e:
@@ -1229,7 +1407,7 @@ def eval_mei(d):
         tx = impl_texts(infos, "mei")
         ev.impl += [tx["notes"], tx["joined"], tx["meas"], tx["sigs"], W.f_list(lambda i: W.f_rat(i["divs"]), infos)]
         oracle_compare(exp, infos, ev.oracle)
-        if opt.get("ppq"):
+        if opt.get("ppq") and opt.get("declare") in ("ppq", "both"):
             for pi, inf in enumerate(infos):
                 if inf["divs"] != opt["ppq"]:
                     ev.oracle.append("ppq: part %d declares ppq=%d, loaded with %s" % (pi, opt["ppq"], inf["divs"]))
